@@ -52,3 +52,15 @@ Theorem C02_sync_at_most_one_event_per_key : forall F c l k,
   wf_cache c -> length (kevs k (snd (do_sync F c l))) <= 1.
 Proof. exact sync_at_most_one_event_per_key. Qed.
 Print Assumptions C02_sync_at_most_one_event_per_key.
+
+(* over whole histories and per key: every sequence of syncs, watch updates and
+   refilters emits, on each key, a well-formed history (Create on an absent
+   key, Update to a strictly newer version of the entry present, Delete of a
+   present key) that folds from the key's entry before to its entry after —
+   the form in which C06's convergence theorems consume C02 *)
+From KC Require Import CacheEvents FilterRace FilterRaceGen CacheHistory.
+Theorem C02_cache_emits_wf_history : forall ops s k, wf_state s ->
+  hist_wf (clookup k (c_items s)) (kevs k (ops_events s ops)) /\
+  pfold (clookup k (c_items s)) (kevs k (ops_events s ops)) = clookup k (c_items (run_ops s ops)).
+Proof. exact cache_emits_wf_history. Qed.
+Print Assumptions C02_cache_emits_wf_history.
